@@ -249,6 +249,16 @@ func genFragmentations(tier string, rng *rand.Rand, shard, nshards int, hooks in
 								emit(doOp(ex, hooks, fl, R, "d:"+hx(R[:c])+";td:"+hx(R[c:c2])+";td:"+hx(R[c2:])))
 							}
 						}
+						// the read that completes the reply was started in time but returns after the total read timeout
+						exactLen := (kind == "t" && (fc <= 4 || fc == 6 || fc == 15 || fc == 16)) || (kind != "t" && (fc == 15 || fc == 16))
+						if exactLen && sizeClass != 1 && rng.Intn(2) == 0 && len(R) == n {
+							// (only for the request types whose expected length is the reply length: the call ends with this read)
+							emit(doOp(ex, hooks, fl, R, "sd:"+hx(R)))
+							if n > 3 {
+								c := 1 + rng.Intn(n-1)
+								emit(doOp(ex, hooks, fl, R, "d:"+hx(R[:c])+";sd:"+hx(R[c:])))
+							}
+						}
 						// stray bytes behind the reply in the same read
 						if kind != "t" && rng.Intn(2) == 0 {
 							emit(doOp(ex, hooks, fl, R, "d:"+hx(append(append([]byte{}, R...), rbytes(rng, 1+rng.Intn(3))...))))
